@@ -37,10 +37,24 @@ def gen_cases(rng, thorough):
     for _ in range(1100 * scale):
         m, how = L.gen_mutant(rng)
         s((L.QUALS + m) if rng.random() < 0.8 else m, 'mut:' + how, ns=rng.choice([None, None, 'root/x']))
+    # namespace argument in {None, '', explicit, explicit-other} with the default namespace of the repository connection
+    # changed AFTER the compiler object was created (to namespaces the compiler has never seen)
+    for k in range(70 * scale):
+        m, how = (L.VALID[0] + '\n' + L.VALID[4], 'none') if k % 3 == 0 else L.gen_mutant(rng)
+        cases.append({'kind': 'string', 'mof': L.QUALS + m, 'ns': rng.choice([None, None, '', '', 'root/x', 'c09/e%d' % k]),
+                      'defns': rng.choice(['c09/d%d' % k, 'c09/d%d' % k, 'root/x', 'root/cimv2']), 'tag': 'defns:' + how})
+    for k in range(12 * (4 if thorough else 1)):
+        m, how = (L.VALID[0], 'none') if k % 2 == 0 else L.gen_mutant(rng)
+        cases.append({'kind': 'mockcomp', 'mof': L.QUALS + m, 'ns': rng.choice([None, '', 'root/m1']),
+                      'defns': rng.choice(['root/m1', 'root/m2']), 'tag': 'mockcomp:' + how})
     for _ in range(150 * scale):
         s(gen_skew(rng), 'skew')
     for _ in range(60 * scale):
         cases.append(gen_files_case(rng))
+    for k in range(len(CYCLES) * 2 * (3 if thorough else 1)):
+        cases.append(gen_cycle_case(rng, k))
+    for _ in range(16 * scale):
+        cases.append(gen_found_on_search_path_case(rng))
     for _ in range(200 * scale):
         cases.append(gen_repo_case(rng))
     cases.extend(exhaustive_repo_cases())
@@ -122,6 +136,57 @@ def gen_files_case(rng):
         files = {'main.mof': L.QUALS + bad}
     files = {k: v.encode('utf-8', 'replace').decode('utf-8') for k, v in files.items()}
     return {'kind': 'files', 'files': files, 'main': main, 'search': search, 'via': via, 'tag': 'files:%d' % which}
+
+
+IN_QUAL = 'Qualifier In : boolean = true, Scope(parameter), Flavor(DisableOverride, ToSubclass);\n'
+
+# class files on the search path that reference each other (name -> body of class F_<name>; %s = the next class)
+CYCLES = {
+    'meth_ref': '[Key] string Id; uint32 M([In] F_%s REF Other);',
+    'prop_ref': '[Key] string Id; F_%s REF R;',
+    'emb_inst': '[Key] string Id; [EmbeddedInstance("F_%s")] string E;',
+    'emb_param': '[Key] string Id; uint32 M([In, EmbeddedInstance("F_%s")] string P);',
+    'super': None,
+}
+
+
+def gen_cycle_case(rng, k):
+    """mutual / cyclic class references between MOF files found on the search path, through the plain compiler and
+    through FakedWBEMConnection.compile_mof_file / compile_mof_string"""
+    how = sorted(CYCLES)[k % len(CYCLES)]
+    n = rng.choice([1, 2, 2, 3])
+    names = ['C%d' % i for i in range(n)]
+    files = {}
+    for i, nm in enumerate(names):
+        nxt = names[(i + 1) % n]
+        if how == 'super':
+            body = 'class F_%s : F_%s { %s uint8 x%d; };\n' % (nm, nxt, '[Key] string Id;' if i == 0 else '', i)
+        else:
+            body = 'class F_%s { %s };\n' % (nm, CYCLES[how] % nxt)
+        files['sp/F_%s.mof' % nm] = body
+    files['main.mof'] = L.QUALS + IN_QUAL + files['sp/F_C0.mof']
+    if rng.random() < 0.3:
+        files['sp/qualifiers.mof'] = L.QUALS + IN_QUAL
+        files['main.mof'] = files['sp/F_C0.mof']
+    return {'kind': 'files', 'files': files, 'main': 'main.mof', 'search': ['sp'], 'via': rng.choice(['file', 'string']),
+            'handle': 'mock' if k % 2 == 0 else 'plain', 'tag': 'files:cycle_%s%d' % (how, n)}
+
+
+def gen_found_on_search_path_case(rng):
+    """a file named by a path that does not exist (directly or in #pragma include) but whose base name is found on the
+    search path, with an error inside: the error must name the file that was actually read"""
+    bad, how = L.gen_mutant(rng, 'class F_Extra {\n    [Key] string Id;\n    uint32 Count;\n};\n')
+    if rng.random() < 0.5:
+        bad = '// extra\nclass F_Extra {\n    [Key] string Id;\n    uint32 Count oops;\n};\n'
+    files = {'sp/deep/F_Extra.mof': L.QUALS + bad}
+    if rng.random() < 0.5:
+        files['main.mof'] = '// main\n#pragma include ("%s")\nclass F_Main { uint8 p; };\n' % rng.choice(
+            ['defs/F_Extra.mof', 'F_Extra.mof', 'f_extra.mof', '../x/F_EXTRA.mof'])
+        main = 'main.mof'
+    else:
+        main = rng.choice(['nodir/F_Extra.mof', 'f_extra.mof', 'F_Extra.MOF'])
+    return {'kind': 'files', 'files': files, 'main': main, 'search': ['sp'], 'via': 'file' if main != 'main.mof' else
+            rng.choice(['file', 'string']), 'handle': rng.choice(['plain', 'plain', 'mock']), 'tag': 'files:found_on_sp'}
 
 
 CODES = list(range(1, 29))
@@ -307,21 +372,33 @@ def run_one(case, comp_plain, stub, comp_stub, wd, classify=True):
         mof = case['mof']
         texts[None] = mof
         comp = comp_plain
+        if case.get('defns'):
+            comp.handle.default_namespace = case['defns']      # changed after the compiler object was created
         obs['out'] = L.outcome_of(lambda: comp.compile_string(mof, case.get('ns')))
     elif kind == 'files':
         d = wd.case_dir(case['files'])
         search = [os.path.join(d, x) for x in case['search']]
-        comp = L.new_compiler(search_paths=search)
         main = os.path.join(d, case['main'])
         for name in case['files']:
             with open(os.path.join(d, name), encoding='utf-8') as f:
                 texts[os.path.join(d, name)] = f.read()
-        if case['via'] == 'file':
-            obs['out'] = L.outcome_of(lambda: comp.compile_file(main, None))
+        if case.get('handle') == 'mock':
+            import pywbem_mock
+            conn = pywbem_mock.FakedWBEMConnection()
+            comp = None
+            if case['via'] == 'file':
+                obs['out'] = L.outcome_of(lambda: conn.compile_mof_file(main, search_paths=search))
+            else:
+                texts[None] = texts[main]
+                obs['out'] = L.outcome_of(lambda: conn.compile_mof_string(texts[main], search_paths=search))
         else:
-            mof = texts[main]
-            # compile_string with a filename: includes are resolved relative to it
-            obs['out'] = L.outcome_of(lambda: comp.compile_string(mof, None, filename=main))
+            comp = L.new_compiler(search_paths=search)
+            if case['via'] == 'file':
+                obs['out'] = L.outcome_of(lambda: comp.compile_file(main, None))
+            else:
+                mof = texts[main]
+                # compile_string with a filename: includes are resolved relative to it
+                obs['out'] = L.outcome_of(lambda: comp.compile_string(mof, None, filename=main))
         obs['dir'] = d
     elif kind == 'repo':
         mof = L.REPO_MOFS[case['which']]
@@ -334,6 +411,18 @@ def run_one(case, comp_plain, stub, comp_stub, wd, classify=True):
         obs['out'] = L.outcome_of(lambda: comp.compile_string(mof, None))
         obs['calls'] = [list(c) for c in stub.calls]
         stub.reset({})
+    elif kind == 'mockcomp':
+        # a MOFCompiler created on a FakedWBEMConnection whose default namespace is changed afterwards
+        import pywbem_mock
+        mof = case['mof']
+        texts[None] = mof
+        conn = pywbem_mock.FakedWBEMConnection()
+        for n in ('root/m1', 'root/m2'):
+            conn.add_namespace(n)
+        comp = pywbem.MOFCompiler(conn, log_func=None)
+        conn.default_namespace = case['defns']
+        obs['out'] = L.outcome_of(lambda: comp.compile_string(mof, case.get('ns')))
+        comp = None
     elif kind == 'mock':
         import pywbem_mock
         mof = case['mof']
@@ -378,7 +467,7 @@ def worker(batch):
     res = []
     for i, case in enumerate(batch):
         obs = run_one(case, comp_plain, stub, comp_stub, wd)
-        if case['kind'] in ('string', 'mock') and len(case['mof']) <= 6000:
+        if case['kind'] in ('string', 'mock', 'mockcomp') and len(case['mof']) <= 6000:
             obs['toks'] = real_tokens(comp_plain, case['mof'])
         bad = (not obs['out'].get('ok') and not obs['out'].get('mof')) or obs.get('pos') or obs.get('reuse')
         if bad:
@@ -407,9 +496,12 @@ def judge(case, obs):
     """list of (sig, observed) property violations of one observation"""
     out = obs['out']
     v = []
-    api = {'string': 'compile_string', 'files': 'compile_file', 'repo': 'compile_string', 'mock': 'compile_mof_string'}[case['kind']]
+    api = {'string': 'compile_string', 'files': 'compile_file', 'repo': 'compile_string', 'mock': 'compile_mof_string',
+           'mockcomp': 'compile_string'}[case['kind']]
     if case['kind'] == 'files' and case.get('via') == 'string':
         api = 'compile_string'
+    if case['kind'] == 'files' and case.get('handle') == 'mock':
+        api = 'compile_mof_' + case['via']
     if out.get('timeout'):
         v.append(({'kind': 'timeout', 'api': api}, out))
     elif out.get('ok'):
@@ -433,6 +525,8 @@ def judge(case, obs):
             pass            # documented: a missing (unreadable) file
         else:
             sig = {'kind': 'leak', 'exc': exc, 'site': out.get('site'), 'cause': obs.get('cause', 'other'), 'api': api}
+            if out.get('via'):
+                sig['via'] = out['via']
             v.append((sig, {k: out.get(k) for k in ('exc', 'site', 'raiser', 'rfile', 'code')}))
     if obs.get('reuse'):
         v.append(({'kind': 'reuse', 'after': 'ok' if out.get('ok') else out.get('exc', 'timeout'),
